@@ -22,8 +22,9 @@ VARIABLES p,            \* the previous tickEnd record ("none" before the first 
           restartWanted,
           unpauseAsked, \* an Unpause request was accepted since the last tick ended
           stopAt,       \* tick at which a user Stop was accepted (0 = none pending; ticks are counted from 1 here)
+          seen,         \* witnesses: antecedents of clauses that held at least once (vacuity guard)
           tid, l, viols, done
-tvars == <<p, maxRun, everStarted, prePause, prePauseRun, pauseDirty, writerInPause, restartWanted, stopAt, unpauseAsked, tid, l, viols, done>>
+tvars == <<p, maxRun, everStarted, prePause, prePauseRun, pauseDirty, writerInPause, restartWanted, stopAt, unpauseAsked, seen, tid, l, viols, done>>
 T == Traces[tid].ev
 
 Display(e) == IF ~e.started THEN "Stopped" ELSE IF e.paused THEN "Paused" ELSE IF e.holding THEN "Holding" ELSE "Running"
@@ -93,11 +94,32 @@ TickClauses(e) ==
        <<"C13.failed-line-reported" \o (IF e.edited THEN "@after-live-edit" ELSE ""), e.failedNodes # <<>> /\ e.started => SetOfSeq(e.failedNodes) \subseteq SetOfSeq(e.mfailed)>>,
        <<"C13.stop-completes", stopAt # 0 /\ e.t + 1 >= stopAt + 3 => ~e.started>> >>
 
+(* which antecedents hold at this event (evaluated in the state before the event) *)
+Witness(e) ==
+    IF e.e = "req" THEN {"request-" \o e.name \o "-" \o e.res}
+    ELSE (IF NewRun(e) THEN {"new-run"} ELSE {}) \cup
+         (IF NewRun(e) /\ maxRun > 0 THEN {"second-or-later-run"} ELSE {}) \cup
+         (IF p.t >= 0 /\ p.paused /\ e.paused /\ e.started THEN {"paused-tick"} ELSE {}) \cup
+         (IF p.t >= 0 /\ p.paused /\ e.paused /\ e.started /\ e.err THEN {"error-paused-tick"} ELSE {}) \cup
+         (IF p.t >= 0 /\ p.paused /\ ~e.paused /\ e.started /\ SameRun(e) /\ ~e.writerExec /\ ~pauseDirty THEN {"pause-ended"} ELSE {}) \cup
+         (IF p.t >= 0 /\ p.paused /\ p.started /\ e.stopping /\ SameRun(e) /\ ~(e.writerExec \/ writerInPause) /\ ~unpauseAsked
+            THEN {"stop-ends-pause"} ELSE {}) \cup
+         (IF e.failedNodes # <<>> THEN {"method-line-failed"} ELSE {}) \cup
+         (IF p.t >= 0 /\ ~p.err /\ e.err THEN {"error-state-begins"} ELSE {}) \cup
+         (IF everStarted /\ ~e.started THEN {"stopped-after-a-run"} ELSE {}) \cup
+         (IF ~everStarted /\ ~e.started THEN {"before-first-run"} ELSE {}) \cup
+         (IF e.state = "Restarting" THEN {"restarting-tick"} ELSE {}) \cup
+         (IF stopAt # 0 THEN {"stop-pending"} ELSE {}) \cup
+         (IF e.holding /\ e.started THEN {"holding-tick"} ELSE {}) \cup
+         (IF e.edited THEN {"after-live-edit"} ELSE {}) \cup
+         (IF SameRun(e) /\ e.ptu > p.ptu THEN {"process-time-advanced"} ELSE {}) \cup
+         (IF SameRun(e) /\ e.block = p.block /\ ~e.scopeChange /\ e.btu > p.btu THEN {"block-time-advanced"} ELSE {})
+
 NoPrev == [t |-> -1]
 TInit == /\ p = NoPrev /\ maxRun = 0 /\ everStarted = FALSE /\ prePause = "" /\ prePauseRun = 0 /\ pauseDirty = FALSE
          /\ writerInPause = FALSE
          /\ restartWanted = FALSE /\ stopAt = 0 /\ unpauseAsked = FALSE
-         /\ tid \in 1..Len(Traces) /\ l = 1 /\ viols = {} /\ done = FALSE
+         /\ tid \in 1..Len(Traces) /\ l = 1 /\ viols = {} /\ done = FALSE /\ seen = {}
 
 Step ==
     /\ l <= Len(T)
@@ -123,9 +145,9 @@ Step ==
                               ELSE restartWanted
           /\ stopAt' = IF ~e.started THEN 0 ELSE stopAt
           /\ unpauseAsked' = FALSE
-    /\ l' = l + 1 /\ UNCHANGED <<tid, done>>
+    /\ l' = l + 1 /\ seen' = seen \cup Witness(T[l]) /\ UNCHANGED <<tid, done>>
 
-Finish == /\ l = Len(T) + 1 /\ ~done /\ done' = TRUE /\ Report(Traces[tid].id, l - 1, viols)
-          /\ UNCHANGED <<p, maxRun, everStarted, prePause, prePauseRun, pauseDirty, writerInPause, restartWanted, stopAt, unpauseAsked, tid, l, viols>>
+Finish == /\ l = Len(T) + 1 /\ ~done /\ done' = TRUE /\ ReportW(Traces[tid].id, l - 1, viols, seen)
+          /\ UNCHANGED <<p, maxRun, everStarted, prePause, prePauseRun, pauseDirty, writerInPause, restartWanted, stopAt, unpauseAsked, seen, tid, l, viols>>
 TSpec == TInit /\ [][Step \/ Finish]_tvars
 =============================================================================
